@@ -204,6 +204,9 @@ func kidFor(tag string, r *rand.Rand) (string, bool) {
 			s = strings.Replace(s, `"ver":1`, `"ver":1,"ext":{"isNonce":false}`, 1)
 		}
 		return s, false
+	case "near-ver-null": // a version member that says nothing: no supported version is declared
+		s := gen.YSSHCAKeyID(gen.KeyIDSpec{HW: true, Touch: 1, TransID: tid, Prins: []string{"u"}})
+		return strings.Replace(s, `"ver":1`, `"ver":`+[]string{"null", "null", `"1"`, "[1]", "true"}[r.Intn(5)], 1), false
 	case "near-ver257": // 257 = 1 mod 256; 65281 = 1 mod 256 too
 		s := gen.YSSHCAKeyID(gen.KeyIDSpec{HW: true, Touch: 1, TransID: tid, Prins: []string{"u"}})
 		return strings.Replace(s, `"ver":1`, `"ver":`+[]string{"257", "513", "65281"}[r.Intn(3)], 1), false
@@ -245,7 +248,7 @@ func kidFor(tag string, r *rand.Rand) (string, bool) {
 }
 
 // AllKIDs is the full list of KeyID tags.
-var AllKIDs = []string{"touch", "touchless", "firefighter", "inagent", "nonce", "headless", "unknown-type", "regular", "null-prins", "empty-prins", "many-prins", "extra-member", "usage-other", "touch-extreme", "near-missing-field-named-elsewhere", "near-ver257", "near-missing-field", "near-ver2", "near-ver0", "near-conflict", "near-conflict-nonce", "near-conflict-headless-nonce", "near-conflict-headless-ff", "near-conflict-headless-touch", "near-conflict-nonce-touch", "near-trailing-text", "near-two-objects", "near-leading-text", "near-case", "empty", "text"}
+var AllKIDs = []string{"touch", "touchless", "firefighter", "inagent", "nonce", "headless", "unknown-type", "regular", "null-prins", "empty-prins", "many-prins", "extra-member", "usage-other", "touch-extreme", "near-missing-field-named-elsewhere", "near-ver-null", "near-ver257", "near-missing-field", "near-ver2", "near-ver0", "near-conflict", "near-conflict-nonce", "near-conflict-headless-nonce", "near-conflict-headless-ff", "near-conflict-headless-touch", "near-conflict-nonce-touch", "near-trailing-text", "near-two-objects", "near-leading-text", "near-case", "empty", "text"}
 
 // NewMaterial draws keys and certificates.
 func NewMaterial(r *rand.Rand, cfg Config) *Material {
@@ -924,6 +927,10 @@ func (e *Engine) opSigners() {
 		s0 := time.Now().Unix()
 		sig, serr := s.Sign(nil, data)
 		s1 := time.Now().Unix()
+		if _, ok := s.(ssh.AlgorithmSigner); !ok {
+			// the underlying agent's own signers can be asked for an algorithm (an SSH client needs that for rsa-sha2-*)
+			e.disc([]string{"C10"}, "signer-cannot-be-asked-for-an-algorithm", e.describe(string(s.PublicKey().Marshal())))
+		}
 		if as, ok := s.(ssh.AlgorithmSigner); ok && serr == nil {
 			// what an SSH client does for public-key authentication: it names the algorithm of the key underneath
 			// (for RSA one of the three that go with it); the empty name means the default
